@@ -105,7 +105,32 @@ func VH_H_ReadPromise() {
 		}
 	}
 }
-func VH_H_SearchPromises() { s, k := vhServer(); s.searchPromises(vx.GinContext("GET")); vhCheck(k, t_api.SearchPromises) }
+// C14 (front-end half): the page and the cursor the client gets are the kernel's, whatever limit parameter
+// accompanied the request (a follow-up request carries only the cursor; its page size is the cursor's)
+func VH_H_SearchPromises() {
+	s, k := vhServer()
+	s.searchPromises(vx.GinContext("GET"))
+	vhCheck(k, t_api.SearchPromises)
+	if k.calls == 1 && k.err == nil && k.res.SearchPromises.Status.IsSuccessful() {
+		body, _ := vx.HttpBody(0).(gin.H)
+		cur, okc := body["cursor"].(*t_api.Cursor[t_api.SearchPromisesRequest])
+		page, okp := body["promises"].([]*promise.Promise)
+		want := k.res.SearchPromises
+		vx.Assert(okc && cur == want.Cursor, "C14:http-reply-carries-the-kernels-cursor")
+		same := okp && len(page) == len(want.Promises)
+		if same {
+			for i := range page {
+				if page[i] != want.Promises[i] {
+					same = false
+				}
+			}
+		}
+		vx.Assert(same, "C14:http-reply-carries-the-kernels-page")
+		if want.Cursor != nil {
+			vx.Reach("cursor-in-reply")
+		}
+	}
+}
 func VH_H_CreatePromise() {
 	s, k := vhServer()
 	s.createPromise(vx.GinContext("POST"))
@@ -116,6 +141,12 @@ func VH_H_CreatePromise() {
 		q := k.req.CreatePromise
 		vx.Assert(b != nil && h != nil, "C20:http-kernel-called-only-with-a-bound-request")
 		vx.Assert(q.Id == b.Id && vx.SameDatum(q.Timeout, b.Timeout) && q.Strict == h.Strict && vx.MapEq(q.Tags, b.Tags) && vhValueEq(q.Param, b.Param) && vhIkeyEq(q.IdempotencyKey, h.IdempotencyKey), "C20:http-request-fields-copied")
+		if b != nil && h != nil {
+			vx.Accepts(b.Timeout == 0, "C15:http-accepts-create-promise-timeout-zero")
+			vx.Accepts(b.Timeout == 1<<62, "C15:http-accepts-create-promise-timeout-huge")
+			vx.Accepts(h.IdempotencyKey == nil && !h.Strict, "C15:http-accepts-create-promise-without-key")
+			vx.Accepts(h.IdempotencyKey != nil && h.Strict, "C15:http-accepts-create-promise-strict-with-key")
+		}
 		if k.err == nil && k.res.CreatePromise.Status.IsSuccessful() {
 			p, ok := vx.HttpBody(0).(*promise.Promise)
 			vx.Assert(ok && p == k.res.CreatePromise.Promise, "C20:http-reply-is-the-kernel-promise")
@@ -133,6 +164,10 @@ func VH_H_CreatePromiseAndTask() {
 		vx.Assert(b != nil && h != nil && q.Promise != nil && q.Task != nil, "C20:http-kernel-called-only-with-a-bound-request")
 		vx.Assert(q.Promise.Id == b.Promise.Id && q.Promise.Timeout == b.Promise.Timeout && q.Promise.Strict == h.Strict && vx.MapEq(q.Promise.Tags, b.Promise.Tags) && vhValueEq(q.Promise.Param, b.Promise.Param) && vhIkeyEq(q.Promise.IdempotencyKey, h.IdempotencyKey), "C20:http-request-fields-copied")
 		vx.Assert(q.Task.PromiseId == b.Promise.Id && q.Task.ProcessId == b.Task.ProcessId && q.Task.Ttl == b.Task.Ttl && q.Task.Timeout == b.Promise.Timeout, "C20:http-task-fields-copied")
+		if b != nil {
+			vx.Accepts(b.Task.Ttl == 0, "C15:http-accepts-create-with-task-ttl-zero")
+			vx.Accepts(b.Task.Ttl == 1<<30 && b.Promise.Timeout == 0, "C15:http-accepts-create-with-task-large-ttl")
+		}
 	}
 }
 func VH_H_CompletePromise() {
@@ -146,6 +181,12 @@ func VH_H_CompletePromise() {
 		vx.Assert(b != nil && h != nil, "C20:http-kernel-called-only-with-a-bound-request")
 		vx.Assert(q.Id == vx.GinParamSent("id"), "C20:http-path-id-reaches-the-kernel-unaltered")
 		vx.Assert(q.State == b.State && q.Strict == h.Strict && vhValueEq(q.Value, b.Value) && vhIkeyEq(q.IdempotencyKey, h.IdempotencyKey), "C20:http-request-fields-copied")
+		if b != nil && h != nil {
+			vx.Accepts(b.State == promise.Resolved, "C15:http-accepts-resolve")
+			vx.Accepts(b.State == promise.Rejected, "C15:http-accepts-reject")
+			vx.Accepts(b.State == promise.Canceled, "C15:http-accepts-cancel")
+			vx.Accepts(h.IdempotencyKey == nil && !h.Strict, "C15:http-accepts-complete-without-key")
+		}
 		if k.err == nil && k.res.CompletePromise.Status.IsSuccessful() {
 			p, ok := vx.HttpBody(0).(*promise.Promise)
 			vx.Assert(ok && p == k.res.CompletePromise.Promise, "C20:http-reply-is-the-kernel-promise")
@@ -161,6 +202,9 @@ func VH_H_CreateCallback() {
 		q := k.req.CreateCallback
 		vx.Assert(b != nil, "C20:http-kernel-called-only-with-a-bound-request")
 		vx.Assert(q.PromiseId == b.PromiseId && q.RootPromiseId == b.RootPromiseId && vx.SameDatum(q.Timeout, b.Timeout) && vx.BytesEq(q.Recv, b.Recv), "C20:http-request-fields-copied")
+		if b != nil {
+			vx.Accepts(b.Timeout == 0, "C15:http-accepts-callback-timeout-zero")
+		}
 	}
 }
 func VH_H_CreateSubscription() {
@@ -186,7 +230,30 @@ func VH_H_ReadSchedule() {
 		}
 	}
 }
-func VH_H_SearchSchedules() { s, k := vhServer(); s.searchSchedules(vx.GinContext("GET")); vhCheck(k, t_api.SearchSchedules) }
+func VH_H_SearchSchedules() {
+	s, k := vhServer()
+	s.searchSchedules(vx.GinContext("GET"))
+	vhCheck(k, t_api.SearchSchedules)
+	if k.calls == 1 && k.err == nil && k.res.SearchSchedules.Status.IsSuccessful() {
+		body, _ := vx.HttpBody(0).(gin.H)
+		cur, okc := body["cursor"].(*t_api.Cursor[t_api.SearchSchedulesRequest])
+		page, okp := body["schedules"].([]*schedule.Schedule)
+		want := k.res.SearchSchedules
+		vx.Assert(okc && cur == want.Cursor, "C14:http-reply-carries-the-kernels-cursor")
+		same := okp && len(page) == len(want.Schedules)
+		if same {
+			for i := range page {
+				if page[i] != want.Schedules[i] {
+					same = false
+				}
+			}
+		}
+		vx.Assert(same, "C14:http-reply-carries-the-kernels-page")
+		if want.Cursor != nil {
+			vx.Reach("cursor-in-reply")
+		}
+	}
+}
 func VH_H_CreateSchedule() {
 	s, k := vhServer()
 	s.createSchedule(vx.GinContext("POST"))
@@ -221,6 +288,10 @@ func VH_H_AcquireLock() {
 		q := k.req.AcquireLock
 		vx.Assert(b != nil, "C20:http-kernel-called-only-with-a-bound-request")
 		vx.Assert(q.ResourceId == b.ResourceId && q.ExecutionId == b.ExecutionId && q.ProcessId == b.ProcessId && q.Ttl == b.Ttl, "C20:http-request-fields-copied")
+		if b != nil {
+			vx.Accepts(b.Ttl == 0, "C15:http-accepts-lock-ttl-zero")
+			vx.Accepts(b.Ttl == 1<<40, "C15:http-accepts-lock-ttl-large")
+		}
 	}
 }
 func VH_H_ReleaseLock() {
@@ -276,6 +347,10 @@ func VH_H_ClaimTask() {
 		} else {
 			b, _ := vx.GinBound("JSON", 0).(*claimTaskBody)
 			vx.Assert(b != nil && q.Id == b.Id && q.Counter == b.Counter && q.ProcessId == b.ProcessId && q.Ttl == b.Ttl, "C20:http-request-fields-copied")
+			if b != nil {
+				vx.Accepts(b.Ttl == 0, "C15:http-accepts-claim-ttl-zero")
+				vx.Accepts(b.Ttl == 1<<30 && b.Counter == 1, "C15:http-accepts-claim-first-counter")
+			}
 		}
 	}
 }
